@@ -23,8 +23,8 @@ CONF = {
     "C04": dict(universes=["core", "c09"], probes=False, extra=False),
     "C09": dict(universes=["c09", "core"], probes=False, extra=False),
     "C10": dict(universes=["c10", "core"], probes=False, extra=False),
-    "C11": dict(universes=["c11", "core"], probes=False, extra=False),
-    "C12": dict(universes=["core", "c10", "c11"], probes=True, extra=True),
+    "C11": dict(universes=["c11", "c11b", "core"], probes=False, extra=False),
+    "C12": dict(universes=["core", "c12x", "c10", "c11"], probes=True, extra=True),
     "C16": dict(universes=["core", "c16", "c11"], probes=True, extra=True),
     "C17": dict(universes=["core", "c18", "c09"], probes=True, extra=False),
     "C18": dict(universes=["c18", "core"], probes=True, extra=True),
@@ -127,6 +127,28 @@ def build_histories(prop, uname, u, n_edges, rnd, conf):
     return hs, total
 
 
+def geometry_histories(rnd, tier):
+    """targeted histories over universe `sz`: the end of the map lands before / on / after a chunk boundary, then the
+    store is reopened, rebuilt and written again; 'drain' histories empty the store (everything removed, or only
+    ephemeral events stored) before a reopen"""
+    hs = []
+    S_ = lambda i: {"k": "store", "a": i}
+    R_ = lambda i: {"k": "remove", "a": i}
+    RO, RB = {"k": "reopen", "a": 0}, {"k": "rebuild", "a": 0}
+    for i in range(1, 25):
+        j = rnd.randint(1, 25)
+        hs.append([S_(i), RO, S_(j), RO, S_(25)])
+        hs.append([S_(i), RB, S_(j), RB, RO])
+        hs.append([S_(25), S_(i), RO, S_(j)])
+    for _ in range(12 if tier == "quick" else 120):
+        a, b, c = rnd.sample(range(1, 26), 3)
+        hs.append([S_(a), S_(b), R_(a), R_(b), RO, S_(c), RO, S_(a)])             # drained by removal
+        hs.append([S_(22), RO, S_(a), RO])                                      # only an ephemeral event before the reopen
+        hs.append([S_(a), {"k": "vanish", "a": 1}, {"k": "vanish", "a": 2}, RO, S_(b), RB, S_(a)])
+        hs.append([S_(a), S_(22), R_(a), RB, S_(b), RO])
+    return hs
+
+
 def run(prop, tier, seed, replay=None):
     conf = CONF[prop]
     V = C.Verdict(prop, tier, seed, "model_checking")
@@ -159,6 +181,9 @@ def run(prop, tier, seed, replay=None):
         hs, total = build_histories(prop, uname, u, n_prim if i == 0 else n_other, rnd, conf)
         edge_totals[uname] = dict(edges_in_cover=total, replayed=len(hs))
         jobs.append((uname, upath, u, hs))
+    if prop in ("C04", "C16", "C17"):
+        upath = S.universe_path("sz")
+        jobs.append(("sz", upath, json.load(open(upath)), geometry_histories(rnd, tier)))
     for j in range(n_ru):
         useed = seed * 1000 + j
         uname = "r%d" % useed
